@@ -217,6 +217,9 @@ func exec(c px.Context, op string, args []sx.Sexp) (res core.Result) {
 	if op == "declq" {
 		return execDeclq(c, args)
 	}
+	if op == "forkview" {
+		return execForkView(c, args)
+	}
 	if op == "typerace" {
 		return execTypeRace(args)
 	}
@@ -973,6 +976,13 @@ func gen(g *core.G) {
 	// the runtime's lazily created system loader: first use after Reset by several goroutines at once (free-running)
 	g.Emit("sysloader 6 3")
 	g.Emit("sysloader 1 1") // malformed: fewer than two goroutines
+	// what a forked goroutine sees of the caller's context: the state at the call of px.Fork / px.Go
+	for _, k := range []string{"fork", "go"} {
+		g.Emit("forkview " + k + " gated")
+		g.Emit("forkview " + k + " free")
+	}
+	g.Emit("forkview spawn gated") // malformed
+	g.Emit("forkview fork")        // malformed
 
 	// 3. malformed
 	for _, l := range []string{
